@@ -191,13 +191,24 @@ def repeat_ok(call, spec):
     return spec['entry'] not in ('getter', 'show')
 
 
+ERRSTATE_LEAKS = []
+
+
 def run_call(call):
+    err0 = np.geterr()
     try:
         return call.run(), None
     except SimAbort:
         raise
     except Exception as e:
         return None, e
+    finally:
+        err1 = np.geterr()
+        if err1 != err0:
+            # process-global floating-point error handling was changed by the call and not restored: later results (inf / nan
+            # versus FloatingPointError) now depend on this call having happened
+            ERRSTATE_LEAKS.append((call.name, err0, err1))
+            np.seterr(**err0)
 
 
 def scribble(res):
@@ -445,6 +456,7 @@ def execute(sc):
     if sc.get('mode') == 'process-history':
         return execute_process_history(sc)
     sc = copy.deepcopy(sc)
+    del ERRSTATE_LEAKS[:]
     stats = {}
     V = []
     runs = 0
@@ -524,6 +536,10 @@ def execute(sc):
                                                                        ', optional dictionary omitted' if spec['entry'] in DEFAULT_DICT else '',
                                                                        'raised ' + ref[2] if ref[2] else 'returned normally')))
                     break
+        if ERRSTATE_LEAKS and not V:
+            nm, e0, e1 = ERRSTATE_LEAKS[0]
+            V.append(viol('global-error-state', '%s changed numpy\'s process-global floating-point error handling from %s to %s and did not restore it: '
+                          'the results of later calls (inf / nan or FloatingPointError) depend on this call having been made' % (nm, e0, e1)))
         if s.switch_inside:
             stats['probe.context_switch_inside_call'] = s.switch_inside
         nontrivial = 1 if (s.switch_inside or s.perturbed) else 0
